@@ -41,6 +41,8 @@ pub struct Outcome {
     pub per: Vec<(String, usize, Result<String, String>)>,
     /// the in-memory registry at the last successful `save()` of this invocation
     pub saved: Option<Value>,
+    /// the same registry's nodes in Debug form (independent of the Serialize implementation)
+    pub saved_debug: Option<String>,
     /// refresh_node_registry ran to completion in this invocation
     pub refreshed: bool,
     /// number of OS/RPC calls made when the registry was last saved in this invocation
@@ -173,6 +175,7 @@ fn run_once(plan: &Plan, entropy: u64, rep: &mut RunReport, prefix: &str) -> Vec
             root,
             os: SimControl(Arc::new(Mutex::new(OsState {
                 pid_lookup_faults: plan.pid_lookup_faults,
+                respawn_on_death: plan.respawn,
                 ..OsState::new()
             }))),
             src_bin,
@@ -707,11 +710,13 @@ impl<'a> World<'a> {
                     return out.fail(format!("registry save: {e}"));
                 }
                 out.saved = Self::snapshot(&reg);
+                out.saved_debug = Some(format!("{:?}", reg.nodes));
             out.last_save_seq = Some(self.os.lock().seq_no);
             }
             Err(e) => {
                 // `add_node(...).await?` in the glue: no final save; what add_node saved itself stays
                 out.saved = None;
+                out.saved_debug = None;
                 out.overall = Some(format!("{e}"));
             }
         }
@@ -754,6 +759,7 @@ impl<'a> World<'a> {
                         return out.fail(format!("registry save: {e}"));
                     }
                     out.saved = Self::snapshot(&reg);
+                out.saved_debug = Some(format!("{:?}", reg.nodes));
             out.last_save_seq = Some(self.os.lock().seq_no);
                 }
                 Err(e) => {
@@ -798,6 +804,7 @@ impl<'a> World<'a> {
                         return out.fail(format!("registry save: {e}"));
                     }
                     out.saved = Self::snapshot(&reg);
+                out.saved_debug = Some(format!("{:?}", reg.nodes));
             out.last_save_seq = Some(self.os.lock().seq_no);
                 }
                 Err(e) => {
@@ -842,6 +849,7 @@ impl<'a> World<'a> {
                         return out.fail(format!("registry save: {e}"));
                     }
                     out.saved = Self::snapshot(&reg);
+                out.saved_debug = Some(format!("{:?}", reg.nodes));
             out.last_save_seq = Some(self.os.lock().seq_no);
                 }
                 Err(e) => {
@@ -950,6 +958,7 @@ impl<'a> World<'a> {
                 return out.fail(format!("registry save: {e}"));
             }
             out.saved = Self::snapshot(&reg);
+                out.saved_debug = Some(format!("{:?}", reg.nodes));
             out.last_save_seq = Some(self.os.lock().seq_no);
         }
         if problem {
@@ -974,6 +983,7 @@ impl<'a> World<'a> {
                 return out.fail(format!("registry save: {e}"));
             }
             out.saved = Self::snapshot(&reg);
+                out.saved_debug = Some(format!("{:?}", reg.nodes));
             out.last_save_seq = Some(self.os.lock().seq_no);
         }
         out
